@@ -2,6 +2,7 @@
 import Reamber.Util.Json
 import Reamber.Model.SM
 import Reamber.Spec.SM
+import Reamber.Spec.SMTies
 import Reamber.Drv.C02
 
 open Lean Reamber.J
@@ -75,8 +76,39 @@ def numRowOfJson (j : Json) : Except String (Rat × Str) :=
   | Json.arr #[a, b] => do .ok (← ratOf? a, ← strOfJson b)
   | _ => .error s!"[value, text] expected: {j}"
 
+/-- the denotation of a text as `c02.denote` returns it, the times being evaluated whenever the `#BPMS` list is
+`tempoOkWeak` (several entries on one beat allowed: the last one in file order is in force) -/
+def denotedWeakToJson (d : Denoted) : Json :=
+  let timed : Option (Rat × List (Rat × Rat)) :=
+    match d.offsetSec, d.bpms with
+    | some o, some b => if tempoOkWeak b then some (o, b) else none
+    | _, _ => none
+  obj [("offset_sec", optToJson ratToJson d.offsetSec),
+       ("bpms", optToJson (listToJson (fun p => Json.arr #[ratToJson p.1, ratToJson p.2])) d.bpms),
+       ("effective_bpms", optToJson (listToJson (fun p => Json.arr #[ratToJson p.1, ratToJson p.2]))
+         (d.bpms.map effectivePairs)),
+       ("stops_present", Json.bool d.stopsPresent), ("stops_empty", Json.bool d.stopsEmpty),
+       ("charts_well_formed", Json.bool d.chartsWellFormed),
+       ("tempo_ok", Json.bool (match d.bpms with
+         | some b => tempoOk b
+         | none => false)),
+       ("tempo_ok_weak", Json.bool (match d.bpms with
+         | some b => tempoOkWeak b
+         | none => false)),
+       ("tempo_on_grid", Json.bool (match d.bpms with
+         | some b => tempoOnGrid b
+         | none => false)),
+       ("tempo_times", match timed with
+         | some (o, b) => listToJson ratToJson (tempoTimes o b)
+         | none => Json.null),
+       ("values", listToJson (listToJson strToJson) d.values),
+       ("charts", listToJson (dchartToJson timed) d.charts)]
+
 def handle (op : String) (j : Json) : Except String Json := do
   match op with
+  | "c03.denote" =>
+    let t ← getStr j "text"
+    .ok (okJson (optToJson denotedWeakToJson (denote t.toList)))
   | "c03.write" =>
     let h ← headerOfJson (← field j "hdr")
     let cs ← getArr chartOfJson j "charts"
